@@ -414,6 +414,16 @@ def lockstep(sv, lv, bs, bl):
             if same(cnt, cs):
                 return True, "lock-step appends of group-g scores[I] and [g] * len(I)"
         return False, "labels %s are not len(index) copies of the loop's group" % show(xl, 120)
+    if isinstance(xl, App) and xl.fn == "full" and len(xl.args) == 2:
+        cnt, val = xl.args
+        if val != g:
+            return False, "labels filled with %s, not the loop's group" % show(val, 60)
+        if not (same(cnt, App("len", (idx,))) or same(cnt, libmodel_len(idx))):
+            return False, "label count %s is not the number of sampled scores" % show(cnt, 80)
+        dt = xl.kwd("dtype")
+        if dt is not None and not (isinstance(dt, App) and dt.fn in ("attr:dtype", "dtype") and dt.args and dt.args[0] == bl):
+            return False, "labels are cast to dtype %s (the dtype of another label array: a longer or different-kind label is truncated / converted)" % show(xl.kwd("dtype"), 60)
+        return True, "lock-step appends of group-g scores[I] and full(len(I), g)"
     if not (isinstance(xl, App) and xl.fn == "forall" and len(xl.args[0].items) == 1):
         return None, "per-group labels not a comprehension: %s" % show(xl, 100)
     el, val = xl.args[0].items[0], xl.args[1]
